@@ -414,6 +414,11 @@ def qbfs_slope_orthonormal_full : Prop :=
 
 end not_proved
 
+/-- the cosine half and the sine half of `compute_z_zprime_Q2d` are the same code up to `a ↔ b` (read off the source: the
+    `if Na >= 0:` block with every identifier renamed is the `if Nb >= 0:` block — in particular the guard of the `m == 1`
+    correction `−2/5·alphas[·][3]` is the same expression in both) -/
+theorem q2d_sum_branches_symmetric : Generated.C07.q2dSumBranchesSymmetric = true := by decide
+
 /-! ## non-vacuity -/
 example : Generated.C07.weight (fun u v : ℝ => u ^ v) 0 4 (1/2) = (1 - 1/2) ^ (0:ℝ) * (1 + 1/2) ^ (4:ℝ) := by
   rw [C07.weight_def]
